@@ -187,6 +187,7 @@ class QosWorld:
         self.writes: list[tuple] = []
         self.pending: list[dict] = []
         self.callers: list[dict] = []
+        self.cmd_objs: dict = {}
         self.connected = True
         self.paused = False
         self.fail_next_write = False
@@ -252,7 +253,9 @@ class QosWorld:
     def start_caller(self, i: int) -> None:
         L = lib()
         c = self.params["callers"][i]
-        cmd = build_cmd(c["cmd"])
+        # "same_as": j -> the very Command object caller j is sending (an application re-using one object)
+        cmd = self.cmd_objs[c["same_as"]] if c.get("same_as") is not None and c["same_as"] in self.cmd_objs else build_cmd(c["cmd"])
+        self.cmd_objs[i] = cmd
         rec = {
             "i": i,
             "cmd": c["cmd"],
